@@ -49,6 +49,125 @@ func (g *Graph) guardedByLenOrNil(n *GNode, exprStr string) bool {
 	return !r.Seen[n.ID]
 }
 
+// lenGuardFor: node n is reachable only through an edge on which len(<exprStr>) >= need is known.
+func (g *Graph) lenGuardFor(n *GNode, exprStr string, need int64) bool {
+	info := g.F.Pkg.TypesInfo
+	type ge struct {
+		n      *GNode
+		branch int
+	}
+	var guards []ge
+	for _, cn := range g.Nodes {
+		if !cn.IsCond || cn.Ast == nil {
+			continue
+		}
+		be, ok := cn.Ast.(*ast.BinaryExpr)
+		if !ok {
+			continue
+		}
+		isLen := func(e ast.Expr) bool {
+			call, ok := ast.Unparen(e).(*ast.CallExpr)
+			if !ok || len(call.Args) != 1 {
+				return false
+			}
+			id, ok := call.Fun.(*ast.Ident)
+			return ok && id.Name == "len" && types.ExprString(call.Args[0]) == exprStr
+		}
+		op, l, r := be.Op, be.X, be.Y
+		if !isLen(l) && isLen(r) {
+			// mirror: C OP len(x)  ==  len(x) OP' C
+			l, r = r, l
+			switch op {
+			case token.LSS:
+				op = token.GTR
+			case token.GTR:
+				op = token.LSS
+			case token.LEQ:
+				op = token.GEQ
+			case token.GEQ:
+				op = token.LEQ
+			}
+		}
+		if !isLen(l) {
+			continue
+		}
+		tv := info.Types[r]
+		if tv.Value == nil {
+			continue
+		}
+		cv, ok2 := constant.Int64Val(constant.ToInt(tv.Value))
+		if !ok2 {
+			continue
+		}
+		switch op {
+		case token.LSS: // len < C : false edge => len >= C
+			if cv >= need {
+				guards = append(guards, ge{cn, 2})
+			}
+		case token.GEQ:
+			if cv >= need {
+				guards = append(guards, ge{cn, 1})
+			}
+		case token.LEQ: // len <= C : false => len >= C+1
+			if cv+1 >= need {
+				guards = append(guards, ge{cn, 2})
+			}
+		case token.GTR:
+			if cv+1 >= need {
+				guards = append(guards, ge{cn, 1})
+			}
+		case token.EQL: // len == C (C>=need): true edge
+			if cv >= need {
+				guards = append(guards, ge{cn, 1})
+			}
+		}
+	}
+	if len(guards) == 0 {
+		return false
+	}
+	cut := func(from *GNode, e Edge) bool {
+		for _, gd := range guards {
+			if gd.n == from && e.Cond == gd.branch {
+				return true
+			}
+		}
+		return false
+	}
+	r := g.Reach([]int{g.Entry}, nil, cut)
+	return !r.Seen[n.ID]
+}
+
+// neededLen returns the minimum length of the operand that makes the slice/index expression safe,
+// when its bounds are constants.
+func neededLen(info *types.Info, e ast.Expr) (int64, bool) {
+	val := func(x ast.Expr) (int64, bool) {
+		if x == nil {
+			return 0, true
+		}
+		tv := info.Types[x]
+		if tv.Value == nil {
+			return 0, false
+		}
+		return constant.Int64Val(constant.ToInt(tv.Value))
+	}
+	switch x := e.(type) {
+	case *ast.SliceExpr:
+		lo, ok1 := val(x.Low)
+		hi, ok2 := val(x.High)
+		if !ok1 || !ok2 {
+			return 0, false
+		}
+		if hi > lo {
+			return hi, true
+		}
+		return lo, true
+	case *ast.IndexExpr:
+		i, ok := val(x.Index)
+		return i + 1, ok
+	}
+	return 0, false
+}
+
 // sliceSites finds slice/index expressions in f whose operand prints as one of the given forms.
 type sliceSite struct {
 	n    *GNode
@@ -115,7 +234,8 @@ func runC25(c *Ctx) {
 		})
 		c.Check(len(sites) >= 2, r1, "GetOne: shard file split sites", reader.Lit.Pos(), fmt.Sprintf("%d slicing sites of the bytes read", len(sites)), "the bytes read from a shard file are no longer split here", nil)
 		for i, s := range sites {
-			c.Check(g.guardedByLenOrNil(s.n, s.op), r1, fmt.Sprintf("GetOne: slice #%d of the shard file bytes is length-guarded", i+1), s.expr.Pos(),
+			need, okN := neededLen(info, s.expr)
+			c.Check(okN && g.lenGuardFor(s.n, s.op, need), r1, fmt.Sprintf("GetOne: slice #%d of the shard file bytes is length-guarded", i+1), s.expr.Pos(),
 				"dominated by a len() check", "a shard file shorter than the metadata prefix makes "+types.ExprString(s.expr)+" panic inside the reader goroutine (process crash on a truncated shard)", nil)
 		}
 	}
@@ -137,7 +257,8 @@ func runC25(c *Ctx) {
 		})
 		c.Check(len(sites) >= 1, r1, "detectBadShards: metadata slicing sites", fDet.Decl.Pos(), fmt.Sprintf("%d sites", len(sites)), "metadata no longer sliced here", nil)
 		for i, s := range sites {
-			c.Check(g.guardedByLenOrNil(s.n, s.op), r1, fmt.Sprintf("detectBadShards: metadata slice #%d is nil/length-guarded", i+1), s.expr.Pos(),
+			need, okN := neededLen(info, s.expr)
+			c.Check(okN && g.lenGuardFor(s.n, s.op, need), r1, fmt.Sprintf("detectBadShards: metadata slice #%d is nil/length-guarded", i+1), s.expr.Pos(),
 				"dominated by a nil/len check", "the metadata of a shard whose file was missing is nil: "+types.ExprString(s.expr)+" panics with slice bounds out of range (one shard missing + one corrupted)", nil)
 		}
 	}
@@ -500,7 +621,7 @@ func runC26(c *Ctx) {
 	c.Offences(g, g.notOnlyVia(c1, 1, isWr), r1, "GetOne: repair only when enabled", wr[0].cs.Call.Pos(), "write reachable only with repairCorruptedShards", "shards rewritten although repair is disabled")
 	// when enabled and indices non-empty the loop is entered: from the true edge of c2 the range head over the indices is reached unless Encode failed
 	head := enclosingRangeHead(g, wr[0].n)
-	okRange := head != nil && mentionsObj(info, head.RangeHead.X, idxFld)
+	okRange := head != nil && fieldOfSelector(info, head.RangeHead.X) == idxFld
 	c.Check(okRange, r1, "GetOne: repair loop ranges over all reported indices", wr[0].cs.Call.Pos(), "for _, i := range dr.ReconstructedShardsIndeces", "the repair loop does not range over the full list of reconstructed shard indices", nil)
 	if head != nil {
 		offs := g.MustFollowFrom(bodyStarts(head), isWr, func(n *GNode) bool { return n == head })
